@@ -339,6 +339,14 @@ func batch(t *testing.T, name string, h Harness) {
 			sh = hash64(sb.String())
 			sched[sh] = true
 		}
+		if d := os.Getenv("VERIF_DUMP_TRACE"); d != "" && s != nil {
+			// debugging aid for divergences: the full decision trace of every run
+			var sb strings.Builder
+			for _, c := range s.Trace() {
+				fmt.Fprintf(&sb, "%s %d/%d %s\n", c.Kind, c.C, c.N, c.Label)
+			}
+			_ = os.WriteFile(fmt.Sprintf("%s/trace-%d-%d.txt", d, *fFrom, idx), []byte(sb.String()), 0o644)
+		}
 		if *fPerRun != "" {
 			cls := ""
 			if rc.failure != nil {
